@@ -5,6 +5,7 @@
 //!   glob.match <files field> <path>                  -> `1` | `0` | `PANIC`
 //!       (a one-line Files field: since fix 546a36f both views split it on white space, so a
 //!        space separates patterns; a field without white space is one pattern)
+//!   glob.big <unit> <n> <path unit> <m>             -> the same for the pattern unit x n, path unit x m
 //!   cpr.find   <text> <path> <strict_ok> <paras>     -> `L[..] R[..] Y[..]`
 //!
 //! `<paras>` / `<strict_ok>` are what the real deb822 reader makes of `<text>` (the generator
@@ -15,7 +16,7 @@
 //! list `k1,v1,k2,v2,…` of `x<hex>` strings (empty group = paragraph without keyed entries).
 use crate::util::*;
 use crate::Resp;
-use deb822_lossless::{Deb822, FromDeb822Paragraph};
+use deb822_lossless::{Deb822, FromDeb822Paragraph, ToDeb822Paragraph};
 use debian_copyright::License;
 use std::panic::{catch_unwind, AssertUnwindSafe};
 use std::path::Path;
@@ -195,6 +196,41 @@ struct View {
     gate: String, // ok | nmr | perr | err:<hex message>
     idx: Ans<Option<usize>>,
     lic: Ans<Option<Lic>>,
+    /// the copyright holders of the paragraph found (lossless: `copyright()`; lossy: the stored
+    /// `copyright` vector); `Err` = the stored vector could not be read off the Debug rendering
+    cpr: Ans<Option<Result<Vec<String>, String>>>,
+}
+
+fn show_cpr(c: &Option<Result<Vec<String>, String>>) -> String {
+    match c {
+        None => "none".to_string(),
+        Some(Ok(l)) => format!("{}:{}", l.len(), elist(l)),
+        Some(Err(e)) => format!("?{}", es(e)),
+    }
+}
+
+/// The fields of the lossy `FilesParagraph` are private and `to_paragraph()` joins the holders
+/// with `\n` (so `[]` and `[""]` both print as the empty field). The derived `Debug` ends with
+/// `copyright: <vec>, comment: <option> }`: the comment is known from `to_paragraph()`, and the
+/// vector is whichever of the candidates (`[]` when the joined field is empty, and its `split('\n')`)
+/// renders to that suffix.
+fn lossy_copyright(fp: &debian_copyright::lossy::FilesParagraph) -> Result<Vec<String>, String> {
+    let para: deb822_lossless::lossy::Paragraph = fp.to_paragraph();
+    let comment: Option<String> = para.get("Comment").map(|s| s.to_string());
+    let joined = para.get("Copyright").unwrap_or_default().to_string();
+    let dbg = format!("{:?}", fp);
+    let tail = format!(", comment: {:?} }}", comment);
+    let body = dbg.strip_suffix(&tail).ok_or_else(|| format!("no comment suffix in {}", dbg))?;
+    let mut cands: Vec<Vec<String>> = vec![joined.split('\n').map(|x| x.to_string()).collect()];
+    if joined.is_empty() {
+        cands.push(vec![]);
+    }
+    let hits: Vec<Vec<String>> =
+        cands.into_iter().filter(|c| body.ends_with(&format!(", copyright: {:?}", c))).collect();
+    match hits.as_slice() {
+        [one] => Ok(one.clone()),
+        _ => Err(format!("copyright not identified in {}", dbg)),
+    }
 }
 
 fn show_view(tag: &str, v: &View) -> String {
@@ -209,7 +245,11 @@ fn show_view(tag: &str, v: &View) -> String {
         Ans::Val(l) => show_lic(l),
         Ans::Panic => "PANIC".to_string(),
     };
-    format!("{}[ok files={} lic={}]", tag, i, l)
+    let c = match &v.cpr {
+        Ans::Val(c) => show_cpr(c),
+        Ans::Panic => "PANIC".to_string(),
+    };
+    format!("{}[ok files={} lic={} cpr={}]", tag, i, l, c)
 }
 
 fn guard<T>(f: impl FnOnce() -> T) -> Ans<T> {
@@ -232,15 +272,16 @@ fn lossless_view(c: &debian_copyright::lossless::Copyright, path: &str) -> View 
         })
     });
     let lic = guard(|| c.find_license_for_file(Path::new(path)).map(|l| lic_tuple(&l)));
-    View { gate: "ok".to_string(), idx, lic }
+    let cpr = guard(|| c.find_files(Path::new(path)).map(|found| Ok(found.copyright())));
+    View { gate: "ok".to_string(), idx, lic, cpr }
 }
 
 fn view_l(text: &str, path: &str) -> View {
     use debian_copyright::lossless::{Copyright, Error};
     match Copyright::from_str(text) {
-        Err(Error::NotMachineReadable) => View { gate: "nmr".into(), idx: Ans::Panic, lic: Ans::Panic },
-        Err(Error::ParseError(_)) => View { gate: "perr".into(), idx: Ans::Panic, lic: Ans::Panic },
-        Err(Error::IoError(_)) => View { gate: "ioerr".into(), idx: Ans::Panic, lic: Ans::Panic },
+        Err(Error::NotMachineReadable) => View { gate: "nmr".into(), idx: Ans::Panic, lic: Ans::Panic, cpr: Ans::Panic },
+        Err(Error::ParseError(_)) => View { gate: "perr".into(), idx: Ans::Panic, lic: Ans::Panic, cpr: Ans::Panic },
+        Err(Error::IoError(_)) => View { gate: "ioerr".into(), idx: Ans::Panic, lic: Ans::Panic, cpr: Ans::Panic },
         Ok(c) => lossless_view(&c, path),
     }
 }
@@ -248,8 +289,8 @@ fn view_l(text: &str, path: &str) -> View {
 fn view_r(text: &str, path: &str) -> View {
     use debian_copyright::lossless::{Copyright, Error};
     match Copyright::from_str_relaxed(text) {
-        Err(Error::NotMachineReadable) => View { gate: "nmr".into(), idx: Ans::Panic, lic: Ans::Panic },
-        Err(_) => View { gate: "perr".into(), idx: Ans::Panic, lic: Ans::Panic },
+        Err(Error::NotMachineReadable) => View { gate: "nmr".into(), idx: Ans::Panic, lic: Ans::Panic, cpr: Ans::Panic },
+        Err(_) => View { gate: "perr".into(), idx: Ans::Panic, lic: Ans::Panic, cpr: Ans::Panic },
         Ok((c, _)) => lossless_view(&c, path),
     }
 }
@@ -266,7 +307,7 @@ fn view_y(text: &str, path: &str, strict_ok: bool) -> View {
             } else {
                 format!("err:{}", es(&m))
             };
-            View { gate, idx: Ans::Panic, lic: Ans::Panic }
+            View { gate, idx: Ans::Panic, lic: Ans::Panic, cpr: Ans::Panic }
         }
         Ok(c) => {
             let idx = guard(|| {
@@ -274,7 +315,8 @@ fn view_y(text: &str, path: &str, strict_ok: bool) -> View {
                     .map(|found| c.files.iter().position(|f| std::ptr::eq(f, found)).unwrap_or(usize::MAX))
             });
             let lic = guard(|| c.find_license_for_file(Path::new(path)).map(lic_tuple));
-            View { gate: "ok".to_string(), idx, lic }
+            let cpr = guard(|| c.find_files(Path::new(path)).map(lossy_copyright));
+            View { gate: "ok".to_string(), idx, lic, cpr }
         }
     }
 }
@@ -338,6 +380,51 @@ pub fn handle(op: &str, a: &[&str]) -> Option<Resp> {
                 if let Some((m, f)) = glob_via_text(&g, &p) {
                     if m != r || f != r {
                         fail = Some("lossless FilesParagraph::matches / find_files disagree with the lossy matches".to_string());
+                    }
+                }
+            }
+            Some(Resp::with(obs.to_string(), fail))
+        }
+        // a long pattern: `unit` x n against the path `punit` x m. `glob_to_regex` ends in
+        // `Regex::new(..).unwrap()` and the regex crate refuses compiled programs above 10 MB
+        // (measured: `?` x 10486, `*` x 10083, `a` x 327675, `é` x 163838 panic with CompiledTooBig;
+        // audit C17 D1). The generated family stays below those sizes, where the model (which
+        // has no size limit) and the code must agree; the oracle is the closed form for a
+        // one-kind pattern.
+        ("glob.big", [u, n, pu, m]) => {
+            let u = ds(u)?;
+            let pu = ds(pu)?;
+            let n: usize = n.parse().ok()?;
+            let m: usize = m.parse().ok()?;
+            if u.chars().any(char::is_whitespace) || u.is_empty() || n == 0 || u.len() * n > 1_000_000 || pu.len() * m > 1_000_000 {
+                return None;
+            }
+            let g = u.repeat(n);
+            let p = pu.repeat(m);
+            let r = match glob_via_lossy(&g, &p) {
+                Ok(r) => r,
+                Err(e) => return Some(Resp::with("CONVERT-ERROR".into(), Some(e))),
+            };
+            let obs = match &r {
+                Ans::Val(true) => "1",
+                Ans::Val(false) => "0",
+                Ans::Panic => "PANIC",
+            };
+            let mut fail = None;
+            if !p.contains('\n') {
+                let want = match u.as_str() {
+                    "?" => Some(p.chars().count() == n),
+                    "*" => Some(true),
+                    "a?" => Some({
+                        let pc = chars(&p);
+                        pc.len() == 2 * n && pc.iter().step_by(2).all(|c| *c == 'a')
+                    }),
+                    lit if !lit.contains(['*', '?', '\\']) => Some(p == g),
+                    _ => None,
+                };
+                if let Some(w) = want {
+                    if r != Ans::Val(w) {
+                        fail = Some(format!("glob {:?} x {} on path {:?} x {}: expected {} got {}", u, n, pu, m, ebool(w), obs));
                     }
                 }
             }
@@ -495,6 +582,20 @@ fn gen_globs(thorough: bool, rng: &mut Rng, out: &mut Out) {
     for (g, p) in extra {
         out.req("glob.match", &[es(&g), es(&p)]);
     }
+    // family glob.big: long patterns BELOW the regex crate's compiled-size limit (see `glob.big`)
+    let big: [(&str, usize, &[(&str, usize)]); 6] = [
+        ("?", 10000, &[("b", 10000), ("b", 9999), ("b", 10001), ("z", 3), ("é", 10000), ("", 0)]),
+        ("*", 9000, &[("z", 3), ("", 0), ("a/b", 1000), ("a\nb", 1)]),
+        ("a", 300000, &[("a", 300000), ("a", 299999), ("z", 3)]),
+        ("a?", 5000, &[("ab", 5000), ("ba", 5000), ("ab", 4999)]),
+        ("é", 150000, &[("é", 150000), ("e", 150000)]),
+        ("x.", 1000, &[("x.", 1000), ("xy", 1000)]),
+    ];
+    for (u, n, paths) in big {
+        for (pu, m) in paths {
+            out.req("glob.big", &[es(u), n.to_string(), es(pu), m.to_string()]);
+        }
+    }
 }
 
 const PATS: [&str; 10] = ["*", "a/*", "*/b", "a/b", "*.c", "a/?", "b/*", "\\*", "a+b", "a/*/c"];
@@ -575,6 +676,25 @@ fn gen_files(thorough: bool, rng: &mut Rng, out: &mut Out) {
             t.push_str(b);
         }
         for p in ["a/b", "a/x", "x"] {
+            find_req(out, &t, p);
+        }
+    }
+    // the stored copyright holders (observable `cpr=`): empty field (lossy `[]`, lossless `[""]`:
+    // deserialize_copyrights, lossy.rs:163-169), one holder, several lines, with a Comment
+    let cblocks: Vec<String> = vec![
+        "Files: *\nCopyright:\nLicense: MIT\n".to_string(),
+        "Files: a/*\nCopyright: h1\n h2\nLicense: GPL\nComment: c\n".to_string(),
+        "Files: a/b\nCopyright:\nLicense: GPL\n text\nComment: x\n  y\n".to_string(),
+        "Files: a/?\nCopyright: 2020, comment: None }\nLicense: MIT\n".to_string(),
+        STANDALONE[0].to_string(),
+    ];
+    for seq in lists_upto(&cblocks, 3) {
+        let mut t = String::from(good_header);
+        for b in &seq {
+            t.push('\n');
+            t.push_str(b);
+        }
+        for p in ["a/b", "a/xy", "x"] {
             find_req(out, &t, p);
         }
     }
@@ -692,6 +812,8 @@ fn gen_files(thorough: bool, rng: &mut Rng, out: &mut Out) {
                 1 => b = format!("{}Comment: c{}\n", b, id),
                 2 => b = files_para(&[], 0, "MIT", id),
                 3 => b = b.replace("License: ", "Licence: "),
+                4 => b = b.replace(&format!("Copyright: 20{:02} holder\n", id), "Copyright:\n"),
+                5 => b = b.replace(" holder\n", " holder\n second holder\n"),
                 _ => {}
             }
             blocks.push(b);
